@@ -102,6 +102,9 @@ type gInfo struct {
 	creator    string // function that started it
 }
 
+// CurGoid returns the id of the calling goroutine.
+func CurGoid() uint64 { return curGoid() }
+
 func curGoid() uint64 {
 	var buf [48]byte
 	n := runtime.Stack(buf[:], false)
